@@ -695,7 +695,23 @@ impl Monitor for C10 {
                 3 => rng.range(0, 40) as usize | 1,
                 4 => rng.range(0, 40) as usize & !1,
                 5 => rng.range(0, 2000) as usize,
+                6 => 8 * rng.range(4, 40) as usize,
                 _ => rng.range(0, 120) as usize,
+            }
+        };
+        // contents: random, or words of all ones mixed with small numbers (sums that sit at the
+        // multiples of 2^32 / 2^64, where a checksum accumulator that mishandles a carry shows)
+        let payload = |rng: &mut Prng, rep: &mut Report, n: usize| -> Vec<u8> {
+            match rng.below(8) {
+                0 => {
+                    rep.count("payloads.all_ones");
+                    vec![0xffu8; n]
+                }
+                1 | 2 => {
+                    rep.count("payloads.carry_stress");
+                    super::c09::carry_stress(if rng.bool() { 4 } else { 8 }, n, rng)
+                }
+                _ => rng.bytes(n),
             }
         };
         match engine {
@@ -704,7 +720,7 @@ impl Monitor for C10 {
                 if let Some(c) = conf_for_path(path, rng) {
                     rep.count("paths.configs");
                     let n = payload_len(rng);
-                    let p = rng.bytes(n);
+                    let p = payload(rng, rep, n);
                     self.check(rep, &c, &p, engine);
                 } else {
                     rep.count("paths.not_constructible");
@@ -713,7 +729,7 @@ impl Monitor for C10 {
             "random" => {
                 let c = builder::rand_conf(rng);
                 let n = payload_len(rng);
-                let p = rng.bytes(n);
+                let p = payload(rng, rep, n);
                 self.check(rep, &c, &p, engine);
             }
             "limits" => {
